@@ -83,11 +83,11 @@ KINDS = ('plain', 'renamed', 'split', 'changed', 'mix')
 VALUE_KINDS = ('default', 'variant', 'different', 'dquote', 'allow', 'deny',
                'empty', 'list1', 'list2', 'list0', 'alias', 'casevariant',
                'aliasprefix', 'aliaslist', 'aliasspaced', 'astral',
-               'aliaslast')
+               'aliaslast', 'olddefault')
 QUICK_VARIANT_KINDS = ('default', 'different', 'empty', 'list1', 'alias',
                        'aliaslist', 'aliaslast')
 TEXT_KINDS = ('default', 'variant', 'different', 'allow', 'deny', 'empty',
-              'casevariant', 'astral')
+              'casevariant', 'astral', 'olddefault')
 
 
 def value(vk, name, defaults, successors):
@@ -128,6 +128,14 @@ def value(vk, name, defaults, successors):
         # a role name with characters outside the ASCII range and outside
         # the Basic Multilingual Plane
         return 'role:d-\u00e9-\U0001f680'
+    if vk == 'olddefault':
+        # a registered name pinned to what its DEPRECATED default says (a
+        # real override wherever old and new default differ)
+        for d in defaults:
+            if d.name == name and d.deprecated_rule and \
+                    d.deprecated_rule.check_str != d.check_str:
+                return '( %s )' % d.deprecated_rule.check_str
+        return None
     if vk == 'aliaslast':
         # after a split: the alias of the LAST successor (for the others it
         # is an ordinary override that refers to that policy)
